@@ -16,8 +16,8 @@ import time
 from . import run as R
 
 ROOT = R.ROOT
-EVID = os.path.join(ROOT, 'evidence')
-REPLAYS = os.path.join(ROOT, 'replays')
+EVID = os.environ.get('PYVC_EVIDENCE_DIR') or os.path.join(ROOT, 'evidence')
+REPLAYS = os.environ.get('PYVC_REPLAY_DIR') or os.path.join(ROOT, 'replays')
 VENV_PY = '/venv/bin/python'
 
 
